@@ -271,9 +271,14 @@ Theorem C13_sort_with_methods_partial : forall (srt : @sorter val), sorter_ok sr
 Proof. exact sort_with_methods. Qed.
 Print Assumptions C13_sort_with_methods_partial.
 
+(* the evaluator's guard on the real inputs decides the hypothesis: sound and complete *)
 Theorem C13_preorder_check_sound : forall (cmp : val -> val -> res Z) l, tpo_b cmp l = true -> tpo_on cmp l.
 Proof. exact tpo_b_sound. Qed.
 Print Assumptions C13_preorder_check_sound.
+
+Theorem C13_preorder_check_complete : forall (cmp : val -> val -> res Z) l, tpo_on cmp l -> tpo_b cmp l = true.
+Proof. exact tpo_b_complete. Qed.
+Print Assumptions C13_preorder_check_complete.
 
 (* the hypothesis holds for the harness' magnitude method (Compare = int(a.F1) - int(b.F1)) on
    every list of values, so for a struct type whose derived Compare is that method, Sort is a
